@@ -8,7 +8,7 @@ from ..calls import iter_functions
 from ..engine import HOLDS, UNDECIDED, VIOLATED, Check
 from ..loader import AnalysisError, parent
 from ..recon import _own_nodes
-from ..rulelib import (_typestate, calls_named, carried_with_entry, check_layout, conds_sym, field_map, fld, inst_attr,
+from ..rulelib import (flows_from, _typestate, calls_named, carried_with_entry, check_layout, conds_sym, field_map, fld, inst_attr,
                        insts_in_func, loop_carried, loops_of, reach_table, spec_expr)
 from ..spec.layouts import LAYOUTS, OWNERS
 
@@ -246,15 +246,68 @@ def vhdx(chk: Check):
     E = ("iter", it, None)
     _, fm = field_map(chk, crel, "parent_locator_entry")
     base = R.self_attr(pk, "offset")
-    seeks = calls_named(pctx, "seek")
-    reads = [r_ for r_ in calls_named(pctx, "read")]
-    got_seeks = [R.expr(pctx, s.args[0]) for s in seeks]
-    want_seeks = [S.op("add", base, ("attr", E, fm["key_offset"].name)), S.op("add", base, ("attr", E, fm["value_offset"].name))]
-    chk.decide(len(got_seeks) == 2 and all(S.equiv(g, w_, n=20).equal is True for g, w_ in zip(got_seeks, want_seeks)), "K-PROV", "vhdx:locator-addresses",
-               loop, "key and value are read at locator start + key_offset / value_offset", found=str([S.show(g)[-60:] for g in got_seeks]))
-    got_lens = [R.expr(pctx, r_.args[0]) for r_ in reads if r_.args]
-    want_lens = [("attr", E, fm["key_length"].name), ("attr", E, fm["value_length"].name)]
-    chk.decide(got_lens == want_lens, "K-PROV", "vhdx:locator-lengths", loop, "with key_length / value_length bytes", found=str([S.show(g)[-40:] for g in got_lens]))
+    # every string is read by a seek + read pair (paired in execution order); which pair gives the key and which the value is
+    # read off the store entries[K] = V, so the order in which the two strings are fetched does not matter
+    def order(n):
+        node = pctx.cfg.node_for(n)
+        return (node.id if node is not None else 0, n.lineno, n.col_offset)
+    seeks = sorted(calls_named(pctx, "seek"), key=order)
+    reads = sorted([x for x in calls_named(pctx, "read") if x.args], key=order)
+    pairs = []
+    for sk_, rd_ in zip(seeks, reads):
+        pairs.append((R.expr(pctx, sk_.args[0], pctx.cfg.node_for(sk_)), R.expr(pctx, rd_.args[0], pctx.cfg.node_for(rd_)), rd_))
+    stores = [n for n in ast.walk(loop) if isinstance(n, ast.Assign) and isinstance(n.targets[0], ast.Subscript)]
+    seek_of = {id(rd_): sk_ for sk_, rd_ in zip(seeks, reads)} if len(seeks) == len(reads) else {}
+
+    def file_range(e, at, depth=6):
+        """(start term, length term, [bound conditions]) of the file bytes an expression's value consists of, or None."""
+        if isinstance(e, ast.Call) and isinstance(e.func, ast.Attribute) and e.func.attr == "decode":
+            return file_range(e.func.value, at, depth)
+        if isinstance(e, ast.Call) and id(e) in seek_of:
+            sk_ = seek_of[id(e)]
+            return R.expr(pctx, sk_.args[0], pctx.cfg.node_for(sk_)), R.expr(pctx, e.args[0], pctx.cfg.node_for(e)), []
+        if isinstance(e, ast.Subscript) and isinstance(e.slice, ast.Slice) and e.slice.step is None:
+            inner = file_range(e.value, at, depth)
+            if inner is None:
+                return None
+            start, ln, bounds = inner
+            lo = R.expr(pctx, e.slice.lower, at) if e.slice.lower is not None else S.C(0)
+            hi = R.expr(pctx, e.slice.upper, at) if e.slice.upper is not None else ln
+            return S.op("add", start, lo), S.op("sub", hi, lo), bounds + [S.cmp_("<=", hi, ln), S.cmp_("<=", lo, hi)]
+        if isinstance(e, ast.Name) and depth > 0 and at is not None:
+            defs = list(pctx.cfg.rd_in.get(at, {}).get(e.id, ()))
+            if len(defs) == 1 and defs[0].value is not None and defs[0].kind in ("assign", "walrus"):
+                return file_range(defs[0].value, defs[0].node, depth - 1)
+        return None
+
+    def always(cond):
+        for i in range(80):
+            try:
+                if not S.ev(cond, S.Valuation(4242 + i)):
+                    return False
+            except S.EvalError:
+                return None
+        return True
+
+    if len(stores) == 1 and seek_of:
+        at = pctx.cfg.node_of[stores[0]]
+        rk, rv = file_range(stores[0].targets[0].slice, at), file_range(stores[0].value, at)
+    else:
+        rk = rv = None
+    if rk is None or rv is None:
+        chk.undecided("K-PROV", "vhdx:locator-addresses", loop, f"cannot tell which file bytes the stored key and value consist of "
+                      f"({len(seeks)} seeks, {len(reads)} reads, {len(stores)} stores)")
+    else:
+        unproved = [S.show(c)[:120] for c in rk[2] + rv[2] if always(c) is not True]
+        ok_a = all(S.equiv(r_[0], S.op("add", base, ("attr", E, fm[f"{nm}_offset"].name)), n=40).equal is True for nm, r_ in (("key", rk), ("value", rv)))
+        ok_l = all(S.equiv(r_[1], ("attr", E, fm[f"{nm}_length"].name), n=40).equal is True for nm, r_ in (("key", rk), ("value", rv)))
+        if unproved and ok_a and ok_l:
+            chk.undecided("K-PROV", "vhdx:locator-addresses", loop, f"the strings are cut out of a larger read; that the read covers them is not shown: {unproved[0]}")
+        else:
+            chk.decide(ok_a, "K-PROV", "vhdx:locator-addresses", loop, "key and value consist of the bytes at locator start + key_offset / value_offset",
+                       found=str({"key": S.show(rk[0])[-80:], "value": S.show(rv[0])[-80:]}))
+            chk.decide(ok_l, "K-PROV", "vhdx:locator-lengths", loop, "of key_length / value_length bytes",
+                       found=str({"key": S.show(rk[1])[-60:], "value": S.show(rv[1])[-60:]}))
     decs = [n for n in ast.walk(loop) if isinstance(n, ast.Call) and isinstance(n.func, ast.Attribute) and n.func.attr == "decode"]
     encs = [chk.prog.fold(n.args[0], pctx.mi) if n.args else None for n in decs]
     chk.decide(len(encs) == 2 and all(str(e).lower().replace("_", "-") == "utf-16-le" for e in encs), "K-PROV", "vhdx:locator-encoding", loop,
@@ -322,9 +375,30 @@ def vmdk(chk: Check):
     sctx = chk.func(rel, "SparseDisk.__init__")
     dparse = [n for n in ast.walk(sctx.func) if isinstance(n, ast.Call) and ast.unparse(n.func).endswith("DiskDescriptor.parse")]
     if dparse:
-        t = R.expr(sctx, dparse[0].args[0])
-        ok = S.contains(t, lambda x: isinstance(x, tuple) and x and x[0] == "call" and x[1] == ".split" and x[2][1:] == (S.C(b"\x00"), S.C(1)))
-        chk.decide(ok, "K-PROV", "vmdk:embedded-descriptor-cut-at-nul", dparse[0], "the embedded descriptor is the window's bytes up to the first NUL", found=S.show(t)[:200])
+        t = R.expr(sctx, dparse[0].args[0], sctx.cfg.node_for(dparse[0]))
+        # decided by evaluating the text handed to the parser on model windows (bytes methods are interpreted)
+        bufs = [x for x in S.walk(t) if isinstance(x, tuple) and x and ((x[0] == "call" and x[1] == ".read") or x[0] == "read")]
+        if not bufs:
+            chk.undecided("K-PROV", "vmdk:embedded-descriptor-cut-at-nul", dparse[0], f"cannot find the window that was read in {S.show(t)[:160]}")
+        else:
+            BUF = max(bufs, key=lambda x: len(repr(x)))
+            probes = {b"# Disk DescriptorFile\nversion=1\n\x00\x00\x00\x00": "# Disk DescriptorFile\nversion=1\n", b"a=1\n\x00junk=2\n\x00\x00": "a=1\n",
+                      b"a=1\nb=2\n": "a=1\nb=2\n", b"\x00\x00": "", b"x\x00": "x"}
+            bad = []
+            und = None
+            for buf, want in probes.items():
+                try:
+                    got = S.ev(t, S.Valuation(1, override={BUF: buf}))
+                except S.EvalError as e:
+                    und = str(e)
+                    break
+                if got != want:
+                    bad.append(f"window {buf!r}: the parser gets {got!r}, specified {want!r}")
+            if und or (bad and S.opaque_parts(t)):
+                chk.undecided("K-PROV", "vmdk:embedded-descriptor-cut-at-nul", dparse[0], f"the text handed to the parser cannot be evaluated: {und or S.show(t)[:160]}")
+            else:
+                chk.decide(not bad, "K-PROV", "vmdk:embedded-descriptor-cut-at-nul", dparse[0],
+                           f"the embedded descriptor is the window's bytes up to the first NUL ({len(probes)} model windows evaluated)" if not bad else "; ".join(bad[:2]))
     # sectors sum
     rets = [n for n in ast.walk(pctx.func) if isinstance(n, ast.Return)]
     chk.decide(bool(rets), "K-PROV", "vmdk:descriptor-returned", pctx.func, "parse returns a DiskDescriptor")
